@@ -311,7 +311,7 @@ def run(chk):
     chk.notes["negative_configs_rejected"] = ["Neg_Phase_ii.cfg (ImagRule)", "Neg_Phase_np2.cfg (ResultIsPhase)"]
     # 2. trace validation of the real class
     rcs = recipes(rnd, 16 if thorough else 1)
-    events, rejected = pd.validate(chk, rcs, "C07", batch=4000)
+    events, rejected = pd.validate(chk, rcs, "C07")
     for ev in events[:200:40]:
         chk.sample({k: (v if k in ("ev", "op", "ord", "other", "fn") else "...") for k, v in ev.items() if k != "id"}
                    | {"desc": pd.describe(ev, [])})
